@@ -13,7 +13,7 @@ if what == "seeds":
         first = (m.get("first_report") or {}).get(m["property"], "")
         rule = first.split(" ")[0] if first else ""
         others = ", ".join(sorted(p for p, v in m["checks_reporting"].items() if p != m["property"] and v == "VIOLATION")) or "-"
-        print(f"| {m['property']}-{m['variant']} | {(m.get('summary') or '')[:150].replace('|', '/')} | {(m.get('needs') or '')[:110].replace('|', '/')} | {own} {rule} | {others} |")
+        print(f"| {os.path.basename(os.path.dirname(d))} | {(m.get('summary') or '')[:150].replace('|', '/')} | {(m.get('needs') or '')[:110].replace('|', '/')} | {own} {rule} | {others} |")
 elif what == "neutral":
     print("| variant | kind | what was refactored | result |")
     print("|---|---|---|---|")
@@ -21,7 +21,7 @@ elif what == "neutral":
         m = json.load(open(d))
         r = m["result"]
         res = "patch no longer applies at HEAD" if not r.get("applies") else ("FALSE ALARM " + ",".join(r["false_alarms"]) if r.get("false_alarms") else ("analysis-error " + ",".join(r["analysis_errors"]) if r.get("analysis_errors") else "silent (all 19 checks)"))
-        print(f"| {m['property']}-n{m['variant']} | {m.get('kind')} | {(m.get('summary') or '')[:140].replace('|', '/')} | {res} |")
+        print(f"| {os.path.basename(os.path.dirname(d))} | {m.get('kind')} | {(m.get('summary') or '')[:140].replace('|', '/')} | {res} |")
 elif what == "rules":
     print("| property | level | rules (function names) | obligations on the current tree |")
     print("|---|---|---|---|")
